@@ -108,10 +108,15 @@ func (p *panicInfo) site() string {
 		return "/vng.readMetadata[unmarshal-of-unvalidated-value]"
 	}
 	s := p.frames[0]
-	if strings.HasPrefix(s, "/vng.(*") && p.kind() == "nil-deref" {
+	inVNG := false
+	for _, f := range p.frames {
+		inVNG = inVNG || strings.HasPrefix(f, "/vng.(*") || f == "/vng.NewZedReader" || f == "/vng.NewBuilder"
+	}
+	if inVNG && !readMeta && p.kind() == "nil-deref" {
 		// A null node inside the VNG metadata tree (Field.Values, Array.Values,
-		// Nulls.Values, ...: NewBuilder maps a nil Metadata to a nil Builder)
-		// is dereferenced by whichever method touches it first.
+		// Nulls.Values, Primitive.Type, ...: NewBuilder maps a nil Metadata to
+		// a nil Builder, a null Type unmarshals to a nil zed.Type) is
+		// dereferenced by whichever method touches it first.
 		return "/vng[nil-metadata-node]"
 	}
 	if helper(s) {
@@ -185,10 +190,10 @@ type runResult struct {
 	values     int
 	err        error
 	capped     bool
-	invalid    int        // values that the walker found inconsistent
-	firstIssue string     // first walker issue (text)
+	invalid    int         // values that the walker found inconsistent
+	firstIssue string      // first walker issue (text)
 	kept       []zed.Value // copies of walker-consistent values (capped)
-	typedefs   bool       // at least one complex type reached the shared context
+	typedefs   bool        // at least one complex type reached the shared context
 	panicked   bool
 	allocDelta uint64
 }
@@ -394,6 +399,22 @@ func clip(b []byte, n int) []byte {
 // consumers feeds walker-consistent values to a ZSON formatter and a ZNG
 // writer (clause 6); a panic there is reported separately from reader panics.
 func consumers(vals []zed.Value, from string, rep *reporter) {
+	// Values of very deeply nested types are left out: formatting and
+	// re-encoding them repeats the super-linear type work that finding
+	// C11-deep-type-* is about and only costs time here.
+	bigType := map[zed.Type]bool{}
+	kept := vals[:0:0]
+	for _, v := range vals {
+		big, ok := bigType[v.Type()]
+		if !ok {
+			big = len(zed.EncodeTypeValue(v.Type())) > 2048
+			bigType[v.Type()] = big
+		}
+		if !big {
+			kept = append(kept, v)
+		}
+	}
+	vals = kept
 	if len(vals) == 0 {
 		return
 	}
@@ -467,10 +488,22 @@ func looksLikeVNG(b []byte) (meta []byte, ok bool) {
 //     leaf of the metadata value, in order and in the metadata's own context.
 //
 // Both are reported (once) under the signature of the recoverable panic.
-func vngPreflight(meta []byte, rep *reporter) bool {
-	ok := true
+func vngPreflight(meta []byte, rep *reporter) (ok bool) {
+	ok = true
 	var val *zed.Value
 	zctx := zed.NewContext()
+	var m0, m1 runtime.MemStats
+	runtime.ReadMemStats(&m0)
+	defer func() {
+		// readMetadata's reader runs with the default Max of 1 GiB whatever the
+		// caller configured: a compressed frame announcing a large size makes
+		// it allocate that much (+25%) before looking at the payload.
+		runtime.ReadMemStats(&m1)
+		if d := m1.TotalAlloc - m0.TotalAlloc; d > allocBound(len(meta)+vng.HeaderSize, 1) {
+			rep.report("C11/alloc/vng", "decoding the %d-byte VNG metadata section the way vng.readMetadata does (zngio reader with default options, Max = 1 GiB) allocated %d bytes", len(meta), d)
+			ok = false
+		}
+	}()
 	if p := catch(func() {
 		r := zngio.NewReaderWithOpts(zctx, bytes.NewReader(meta), zngio.ReaderOpts{Threads: 1})
 		defer r.Close()
